@@ -536,6 +536,17 @@ Definition cmap14_map_variant (sels : list Sel) (c sel : Z) : option (option Z) 
 Fixpoint assoc (c : Z) (l : list pair) : option Z :=
   match l with [] => None | (k, v) :: t => if k =? c then Some v else assoc c t end.
 
+(* DefaultUvsIter: each range record expands to start ..= start + additional_count (u32 arithmetic on a
+   24-bit start: no overflow); Cmap14Iter: per selector record, the default code points (UseDefault) and then
+   the non-default mappings (Variant gid); records without tables contribute nothing *)
+Definition default_uvs_iter (ranges : list (Z * Z)) : list Z :=
+  flat_map (fun r => zrange (fst r) (fst r + snd r + 1)) ranges.
+Definition sel_iter (r : Sel) : list (Z * Z * option Z) :=
+  let '(sel, d, n) := r in
+  map (fun c => (c, sel, None)) (match d with Some rs => default_uvs_iter rs | None => [] end)
+  ++ map (fun m : Z * Z => (fst m, sel, Some (snd m))) (match n with Some ms => ms | None => [] end).
+Definition cmap14_iter (sels : list Sel) : list (Z * Z * option Z) := flat_map sel_iter sels.
+
 (* what a variation-selector table encodes, by linear inspection (specification side) *)
 Definition sel_of (r : Sel) : Z := fst (fst r).
 Definition in_range (c : Z) (r : Z * Z) : bool := (fst r <=? c) && (c <=? fst r + snd r).
@@ -558,6 +569,11 @@ Definition wf_selb (r : Sel) : bool :=
   (match snd (fst r) with Some ranges => isortedb fst (fun x : Z * Z => fst x + snd x) (-1) ranges | None => true end)
   && (match snd r with Some maps => isortedb fst fst (-1) maps | None => true end).
 Definition wf14b (sels : list Sel) : bool := isortedb sel_of sel_of (-1) sels && forallb wf_selb sels.
+(* no code point with both a default and a non-default entry under one selector (reflected by Iter14.dn14b_sound) *)
+Definition dn14b (sels : list Sel) : bool :=
+  forallb (fun r : Sel => match snd (fst r), snd r with
+                          | Some rs, Some ms => forallb (fun m : Z * Z => negb (existsb (in_range (fst m)) rs)) ms
+                          | _, _ => true end) sels.
 
 (* ================================================================================ *)
 (*              correspondence case format (harness/src/bin/c08.rs)                 *)
@@ -599,8 +615,8 @@ Inductive Case :=
 | CBuildGen (pieces : list (nat * Z * Z * Z * Z)) (panic_in_from_mappings : bool)   (* a build that panicked *)
 | CRead4 (t : T4) (lookups : list (Z * option Z)) (iter : list pair)
 | CRead12 (g : list (Z * Z * Z)) (lookups : list (Z * option Z)) (limits : option (Z * Z)) (iter : list pair)
-| CVar14 (sels : list Sel) (lookups : list (Z * Z * option (option Z)))
-| CVar14wf (sels : list Sel) (lookups : list (Z * Z * option (option Z))).    (* as CVar14, and the table must satisfy wf14b *)
+| CVar14 (sels : list Sel) (lookups : list (Z * Z * option (option Z))) (iter : list (Z * Z * option Z))
+| CVar14wf (sels : list Sel) (lookups : list (Z * Z * option (option Z))) (iter : list (Z * Z * option Z)).    (* as CVar14, and the table must satisfy wf14b *)
 
 (* large inputs are described by generator pieces (count, first char, char step, first gid, gid step)
    instead of a literal list (a literal of tens of thousands of pairs overflows coqc's stack) *)
@@ -611,6 +627,18 @@ Definition gen_input (pieces : list (nat * Z * Z * Z * Z)) : list pair := flat_m
 
 Definition dump_panics (f4 : option T4) : bool :=
   match f4 with Some t => match cmap4_compute_length t with None => true | Some _ => false end | None => false end.
+
+Definition triples_eqb (a b : list (Z * Z * option Z)) : bool :=
+  Nat.eqb (length a) (length b)
+  && forallb (fun p => let '((c1, s1, v1), (c2, s2, v2)) := p in (c1 =? c2) && (s1 =? s2) && oz_eqb v1 v2) (combine a b).
+Definition var14_ok (sels : list Sel) (lookups : list (Z * Z * option (option Z))) (iter : list (Z * Z * option Z)) : bool :=
+  let same (x y : option (option Z)) := match x, y with
+                    | None, None => true
+                    | Some a, Some b => oz_eqb a b
+                    | _, _ => false end in
+  forallb (fun q => same (cmap14_map_variant sels (fst (fst q)) (snd (fst q))) (snd q)
+                    && same (cmap14_spec sels (fst (fst q)) (snd (fst q))) (snd q)) lookups
+  && triples_eqb (cmap14_iter sels) iter.
 
 Definition check_case (c : Case) : bool :=
   match c with
@@ -640,19 +668,6 @@ Definition check_case (c : Case) : bool :=
       && forallb (fun p => match cmap4_map_chk t (fst p) with Some r => oz_eqb r (snd p) | None => false end) lookups
       && match cmap4_iter_chk t with Some l => plist_eqb l iter | None => false end
   | CRead12 g lookups limits iter => lookups_ok (cmap12_map g) lookups && plist_eqb (cmap12_iter limits g) iter
-  | CVar14 sels lookups =>
-      let same (x y : option (option Z)) := match x, y with
-                        | None, None => true
-                        | Some a, Some b => oz_eqb a b
-                        | _, _ => false end in
-      forallb (fun q => same (cmap14_map_variant sels (fst (fst q)) (snd (fst q))) (snd q)
-                        && same (cmap14_spec sels (fst (fst q)) (snd (fst q))) (snd q)) lookups
-  | CVar14wf sels lookups =>
-      wf14b sels &&
-      let same (x y : option (option Z)) := match x, y with
-                        | None, None => true
-                        | Some a, Some b => oz_eqb a b
-                        | _, _ => false end in
-      forallb (fun q => same (cmap14_map_variant sels (fst (fst q)) (snd (fst q))) (snd q)
-                        && same (cmap14_spec sels (fst (fst q)) (snd (fst q))) (snd q)) lookups
+  | CVar14 sels lookups iter => var14_ok sels lookups iter
+  | CVar14wf sels lookups iter => wf14b sels && dn14b sels && var14_ok sels lookups iter
   end.
